@@ -27,7 +27,7 @@ Spec == Init /\ [][Next]_vars
 Programs ==
   IF t # Nil THEN {Ctx(c, t) : c \in Contexts}
   ELSE IF Len(ss) = 0 THEN {}
-  ELSE {Prog(ss), Prog(<<Node("fdecl", "", <<Id("h"), PList(<<>>), Blk(ss)>>)>>)}
+  ELSE (IF TopOK(ss) THEN {Prog(ss)} ELSE {}) \cup {Prog(<<Node("fdecl", "", <<Id("h"), PList(<<>>), Blk(ss)>>)>>)}
 
 Run(toks, tol, smart) ==
   LET r == ParseProgram([DefaultP(toks) EXCEPT !.tolerant = tol, !.smart = smart])
